@@ -323,6 +323,63 @@ theorem no_racy_site_equals_sequential (tbl : List SharedWrite) (h : ∀ r ∈ t
     subst hp1
     exact ⟨c, rfl, hp2⟩
 
+/-- Same-value writes: if every write to a cell, in every program, stores the SAME constant `k c`, and every program reads
+    a cell only after having written it itself, then the programs are linearizable for EVERY schedule - although they
+    write and read common cells (`conflictFreeB` is false).  This is why concurrent `Set` / `ImmutableSet` / `Map` /
+    `AllOf` / `AnyOf` validations of the SAME field are harmless on the current tree (they all write the field's own
+    name), while `Array[X]` (`a_0`, `a_1`, … per element) is not. -/
+theorem same_value_writes_linearizable (k : Nat → String) (sh : Shared) (progs : List (List Step))
+    (hu : ∀ p ∈ progs, uniformB k p = true) (hr : ∀ p ∈ progs, readsAfterOwnWrite [] p = true) :
+    Linearizable sh progs := by
+  intro sched i r hres
+  unfold resultAt at hres
+  cases ht : (run (Cfg.init sh progs) sched).threads[i]? with
+  | none => simp [ht] at hres
+  | some t =>
+    simp only [ht] at hres
+    cases hp : progs[i]? with
+    | none =>
+      have hlen : ∀ (sched : List Nat) (cfg : Cfg), (run cfg sched).threads.length = cfg.threads.length := by
+        intro sched
+        induction sched with
+        | nil => intro cfg; rfl
+        | cons j rest ih =>
+          intro cfg
+          rw [run_cons, ih]
+          cases hj : cfg.threads[j]? with
+          | none => rw [stepAt_none hj]
+          | some tj => rw [stepAt_some hj]; simp
+      have h1 : i < (run (Cfg.init sh progs) sched).threads.length := (List.getElem?_eq_some_iff.mp ht).1
+      rw [hlen] at h1
+      have h2 : progs.length ≤ i := List.getElem?_eq_none_iff.mp hp
+      simp [Cfg.init] at h1
+      omega
+    | some p =>
+      refine ⟨p, rfl, ?_⟩
+      have hi : (Cfg.init sh progs).threads[i]? = some (TState.init p) := by simp [Cfg.init, hp]
+      have hall : ∀ (j : Nat) (tj : TState), (Cfg.init sh progs).threads[j]? = some tj → uniformB k tj.prog = true := by
+        intro j tj htj
+        obtain ⟨q, hq, rfl⟩ := init_get htj
+        exact hu q (List.mem_of_getElem? hq)
+      have := run_uniform k i sched (Cfg.init sh progs) (TState.init p) sh [] hi hall
+        (hr p (List.mem_of_getElem? hp)) (fun c hc => nomatch hc)
+      rw [ht] at this
+      have ht' : t = (alone sh (TState.init p) (sched.count i)).2 := Option.some.inj this
+      rw [ht'] at hres
+      exact result_of_alone hres
+
+/-- non-vacuity: two `Set.__set__` calls on the SAME field (one item object, cell 0) and two `Map.__set__` calls on the same
+    field are NOT conflict free, yet satisfy the hypotheses of `same_value_writes_linearizable`; `Array[X]` does not -/
+theorem same_value_writes_example :
+    conflictFreeB [progSet 0 "a" [(1, true), (2, true)], progSet 0 "a" [(3, true)]] = false ∧
+    uniformB (fun _ => "a") (progSet 0 "a" [(1, true), (2, true)]) = true ∧
+    readsAfterOwnWrite [] (progSet 0 "a" [(1, true), (2, true)]) = true ∧
+    uniformB (fun c => if c = 0 then "a_key" else "a_value") (progMap 0 1 "a" [((1, true), (2, true))]) = true ∧
+    readsAfterOwnWrite [] (progMap 0 1 "a" [((1, true), (2, true))]) = true ∧
+    uniformB (fun _ => "a") (progAnyOf (.const "a") 5 [(0, true), (1, false)]) = true ∧
+    readsAfterOwnWrite [] (progAnyOf (.const "a") 5 [(0, true), (1, false)]) = true ∧
+    uniformB (fun _ => "a") (progHomog 0 "a" true [(20, true), (21, true)]) = false := by decide
+
 /-- Clause 1 of C20 holds in the model for EVERY schedule and every set of programs, racy or not: the result of a thread
     only contains values of that thread's own input (the temp structures are thread-private; what the race corrupts is
     WHICH of the thread's own elements is read back, or whether one is found at all). -/
